@@ -1169,7 +1169,6 @@ func (in *Interp) unop(fr *frame, x *ssa.UnOp) (Value, *iPanic) {
 	panic(unsupported{"unop " + x.Op.String()})
 }
 
-
 // lookupMethod is Prog.LookupMethod that returns nil instead of panicking when T has no such method.
 func (in *Interp) lookupMethod(T types.Type, pkg *types.Package, name string) *ssa.Function {
 	if T == nil {
